@@ -34,10 +34,13 @@
   (`updateState`, `consume`, `regenerate`, `deposit`, `exitDormancy`, `reset`) are the same functions with no
   observer installed (`on_state_change=None`).
 
-  Not modelled: console output (`silent=True` in the harness), the background regeneration thread
-  (`regeneration_rate = 0`; when > 0 it is another actor calling `regenerate(int(rate))` once a second, i.e.
-  a `regenerate` op in a C05 interleaving), timestamps and the content of `_transactions` (only its
-  length), `get_report`'s float fields.
+  Console output (`silent=False`, the default) is best effort in the source: every message goes through the module's
+  `print`, which swallows the failure of the stream — so it is not part of any operation's outcome and has no place in
+  the model (evaluated on the real class on every run: `Operon.Gen.Metabolism.consoleFailuresEscape`; driven with
+  hostile consoles by the harness: `loud` lines).  The background regeneration thread (`regeneration_rate > 0`) is
+  another actor calling `regenerate(int(rate))`: `Op.tick`.
+
+  Not modelled: timestamps and the content of `_transactions` (only its length), `get_report`'s float fields.
 -/
 namespace Operon.Atp
 
@@ -150,6 +153,31 @@ def updateStateO (cls : Classifier) (obs : Obs) (s : Store) : Store × Except Ex
         | some k => ({ s with state := st }, .error (.observer k))
 
 def updateState (cls : Classifier) (s : Store) : Store × Except Exc Unit := updateStateO cls Obs.silent s
+
+/-- `_update_state` with its two division guards as parameters — what the function would be with a guard missing.
+    `g.1`: the ratio `total_current / total_capacity` is only computed when the capacity is not zero (`if total_capacity ==
+    0: ratio = 0.0 else: …`); `g.2`: the debt term `self._debt / total_capacity` is only computed when the capacity is
+    positive (`if self._debt > 0 and total_capacity > 0:`).  Which guards the source has is read from its AST on every
+    run (`Operon.Gen.Metabolism.updGuards`); `updateStateO` is the instance with both guards. -/
+def updateStateG (g : Bool × Bool) (cls : Classifier) (obs : Obs) (s : Store) : Store × Except Exc Unit :=
+  let cap := s.maxAtp + s.maxGtp
+  let cur := s.atp + s.gtp
+  let base : Except Exc (Option Quo) :=
+    if g.1 = true ∧ cap = 0 then .ok none else (pyDiv cur cap).map some
+  match base with
+  | .error e => (s, .error e)
+  | .ok r =>
+    let pen : Except Exc (Option Quo) :=
+      if s.debt > 0 ∧ (g.2 = false ∨ cap > 0) then (pyDiv s.debt cap).map some else .ok none
+    match pen with
+    | .error e => (s, .error e)
+    | .ok p =>
+      let st := cls r p
+      if st = s.state then ({ s with state := st }, .ok ())
+      else
+        match obs st with
+        | none => ({ s with state := st }, .ok ())
+        | some k => ({ s with state := st }, .error (.observer k))
 
 /-- `self._update_state(); return v` — if the observer raised inside `_update_state`, `v` is never returned -/
 def thenReturn {α : Type} (u : Store × Except Exc Unit) (v : α) : Store × Except Exc α :=
